@@ -42,6 +42,7 @@ def run(ctx):
     ctx.attempt(r3, ctx, F, bs)
     ctx.attempt(r4, ctx, F, bs)
     ctx.attempt(r5, ctx, F, bs)
+    ctx.attempt(base_does_not_override, ctx, F, bs, 'C06.R5')
     sub = _Alias(ctx, 'C02.R5', 'C06.R6')
     C02.archive_taint(sub, bs)
     from rules import C18
@@ -386,7 +387,11 @@ def r4(ctx, F, bs):
                   'an entry is removed from the recorded state outside the Delete arms / for another key', term_loc(A, rb))
     want = {'ConvergeIdentical', 'PropagateAtoB', 'PropagateBtoA', 'DeleteA', 'DeleteB', 'DeleteVsModify:a', 'DeleteVsModify:b',
             'BothChanged:winner', 'BothChanged:loser'}
+    part_ = any((callee(t_) or '').endswith('::partition') for _, t_ in bs.rfl.calls(lambda c: True))
     for w in sorted(want - seen):
+        if part_:
+            ctx.undecided('C06.R4', 'the %s arm of apply records nothing, and run_bisync partitions the plan: the record may be made where the partition is consumed' % w)
+            continue
         ctx.bad('C06.R4', 'apply:%s:record-exists' % w, 'the %s arm does not update the recorded common state' % w, loc(A, A.lo))
     # the record is unconditional within the arm once the file op succeeded: the insert is reached whenever the arm completes
     # (the `if let Some(fp) = a.get(rel)` wrapper is total for planned paths; not checked here)
@@ -493,6 +498,46 @@ def r8(ctx, F):
               'entry type from symlink_metadata().file_type()', 'fingerprint_path stats the path other than via symlink_metadata (following links or reading times?)', loc(b, b.lo))
     if n < 2:
         ctx.missing('C06.R8', 'fingerprint_path: two Fingerprint constructors')
+
+
+def base_does_not_override(ctx, F, bs, rid):
+    """The recorded state starts from the base and is UPDATED with what the run establishes.  When it is assembled by
+    collecting a chain into a map, the later element wins for a duplicate key: the base must not come after the fresh
+    fingerprints (the same edit made on both sides would be recorded with the OLD fingerprint, and the next one-sided edit
+    of that path becomes a conflict)."""
+    r, R = bs.rfl, bs.run
+    for cb, ct in r.calls(lambda c: c == 'std::iter::Iterator::chain'):
+        def kind(op):
+            ks = set()
+            work, seen, steps = [op], set(), 0
+            while work and steps < 80:
+                steps += 1
+                for o in r.origins(work.pop()):
+                    k = (o.kind, str(o.key), o.bb, tuple(o.path))
+                    if k in seen or o.kind == 'comb':
+                        continue
+                    seen.add(k)
+                    if o.kind == 'call' and o.key == 'archive::Archive::load':
+                        ks.add('base')
+                    elif o.kind == 'call' and o.key == 'reconcile::reconcile':
+                        ks.add('plan')
+                    elif o.kind == 'agg' and F.body(o.key) is not None:
+                        # closure of a map / filter_map: looks up the live scans?
+                        for nb in [F.body(o.key)]:
+                            if flow_of(nb).calls(lambda c: c.endswith('BTreeMap::<K, V, A>::get')):
+                                ks.add('fresh')
+                    elif o.kind == 'call' and o.bb is not None:
+                        for a in R.blocks[o.bb]['term']['args']:
+                            if a['k'] != 'const':
+                                work.append(a)
+            return ks
+        k0, k1 = kind(ct['args'][0]), kind(ct['args'][1])
+        # does the chained iterator end up in the map handed to apply?
+        if 'base' in k1 and ('fresh' in k0 or 'plan' in k0) and 'base' not in k0:
+            ctx.bad(rid, 'run_bisync:base-chained-after-fresh', 'the recorded state is collected from <fresh fingerprints>.chain(<base entries>): for a path present in both the base entry '
+                    'comes last and wins - after the same edit on both replicas the archive keeps the old fingerprint', term_loc(R, cb))
+        elif 'base' in k0 and ('fresh' in k1 or 'plan' in k1):
+            ctx.ok(rid, 'run_bisync:base-chained-first', 'base entries first, fresh fingerprints override them', term_loc(R, cb))
 
 
 def r9(ctx, F, bs):
